@@ -24,6 +24,7 @@ from __future__ import annotations
 
 import asyncio
 import copy
+import itertools
 import logging
 import random
 from typing import Any
@@ -322,6 +323,90 @@ def late_child_failure_programs():  # noqa: ANN201
             yield [{"op": "probe", "id": 0}, out, {"op": "probe", "id": 4}], {"block": "out", "kind": "ascope", "fault": "body-exception", "exit": exit_kind, "after_late_child_failure": True}
 
 
+def run_scope_under_finished_parent(R: Recorder, case: dict[str, Any]) -> None:
+    """a synchronous scope P (inside an asynchronous root, which owns the tasks) is left while a task spawned inside it still runs a scope J1
+    under it: P has been left but cannot complete yet. Another task spawned inside P then opens its own block J2 - created while P is in
+    that state -, J1 is left (P completes), and J2 is left last: leaving J2 hands back what its task saw before, and raises nothing of
+    its own (or exactly the body's exception)"""
+    from haiway import ctx
+
+    kind, outcome = case["kind"], case["outcome"]
+    notes: dict[str, Any] = {}
+
+    def view() -> Any:
+        try:
+            return ("val", family.ident(ctx.state(family.D1)))
+        except BaseException as exc:  # noqa: BLE001
+            return ("exc", type(exc).__name__)
+
+    class Own(Exception):
+        pass
+
+    async def job1(hold: asyncio.Event) -> None:
+        with ctx.scope("J1", family.make("D1", 71)):
+            await hold.wait()
+
+    async def job2(start: asyncio.Event, hold: asyncio.Event) -> None:
+        await start.wait()
+        notes["before"] = view()
+        raised: BaseException | None = Own("body") if outcome == "raise" else None
+        try:
+            if kind == "ascope":
+                async with ctx.scope("J2", family.make("D1", 72)):
+                    notes["inside"] = view()
+                    await hold.wait()
+                    if raised is not None:
+                        raise raised
+            elif kind == "sscope":
+                with ctx.scope("J2", family.make("D1", 72)):
+                    notes["inside"] = view()
+                    await hold.wait()
+                    if raised is not None:
+                        raise raised
+            else:
+                with ctx.updated(family.make("D1", 72)):
+                    notes["inside"] = view()
+                    await hold.wait()
+                    if raised is not None:
+                        raise raised
+            notes["caught"] = None
+        except BaseException as exc:  # noqa: BLE001
+            notes["caught"] = exc
+        notes["raised"] = raised
+        notes["after"] = view()
+
+    async def main(loop: Any) -> None:
+        hold1, start2, hold2 = asyncio.Event(), asyncio.Event(), asyncio.Event()
+        async with ctx.scope("root", family.make("D1", 70)):
+            with ctx.scope("P", family.make("D1", 73)):
+                t1 = ctx.spawn(job1, hold1)
+                t2 = ctx.spawn(job2, start2, hold2)
+                for _ in range(3):
+                    await asyncio.sleep(0)
+            # P was left; J1 (under P) is still open
+            start2.set()
+            for _ in range(3):
+                await asyncio.sleep(0)
+            hold1.set()  # J1 is left now
+            for _ in range(4):
+                await asyncio.sleep(0)
+            hold2.set()  # ... and J2 last
+            await asyncio.gather(t1, t2, return_exceptions=True)
+
+    status, value, loop = run_virtual(main, max_iterations=20000)
+    R.case(case, nontrivial=True)
+    R.count("blocks_created_under_a_left_but_uncompleted_scope")
+    w0 = {"fault": "late-leaver", "exit": outcome, "block_kind": kind, "created_under_a_left_scope": True}
+    if status != "ok" or "after" not in notes:
+        R.monitor("terminates", False, where={**w0, "kind": status}, detail=f"run ended {status}: {value!r}; notes={notes}", case=case)
+        return
+    R.monitor("terminates", True)
+    ok_state = notes["before"] == notes["after"] == ("val", ("D1", 73)) and notes["inside"] == ("val", ("D1", 72))
+    R.monitor("state-restored", ok_state, where={**w0, "kind": "state-not-restored"}, detail=f"task spawned inside P (D1 uid 73): before its own block {notes['before']}, inside {notes['inside']}, after {notes['after']}", case=case)
+    R.monitor("exception-identity", notes["caught"] is notes["raised"], where={**w0, "kind": "exception-replaced-or-swallowed" if outcome == "raise" else "normal-exit-raised"},
+              detail=f"body of J2 raised {notes['raised']!r}, its caller caught {notes['caught']!r}", case=case)
+
+
 def absorbed_group_cancel_programs():  # noqa: ANN201
     """a spawned task fails while the body waits; the group cancels the body; the body suppresses that cancellation (`except CancelledError`
     + `Task.uncancel()`, as asyncio asks for) and then returns / raises an error of its own, possibly while another spawned task is still
@@ -358,6 +443,8 @@ def run(R: Recorder, tier: str, seed: int, shard: int, nshards: int) -> None:
         for p, meta in late_leaver_programs():
             R.count("programs_leaving_a_block_after_the_scopes_it_was_spawned_from")
             explore_variant(R, p, meta, random.Random(0), DFS_CAP[tier])
+        for kind, outcome in itertools.product(("ascope", "sscope", "updated"), ("return", "raise")):
+            run_scope_under_finished_parent(R, {"under_finished_parent": True, "kind": kind, "outcome": outcome})
         for p, meta in absorbed_group_cancel_programs():
             R.count("programs_whose_body_absorbs_the_groups_cancellation")
             explore_variant(R, p, meta, random.Random(0), DFS_CAP[tier])
@@ -381,6 +468,9 @@ def run(R: Recorder, tier: str, seed: int, shard: int, nshards: int) -> None:
 
 
 def replay(R: Recorder, rec: dict[str, Any]) -> None:
+    if rec.get("under_finished_parent"):
+        run_scope_under_finished_parent(R, rec)
+        return
     out = run_once(rec["program"], rec["choices"], "first", target=rec.get("k"), after_idles=rec.get("after_idles", 0), tg=not rec["meta"].get("no_tg_probe"))
     judge(R, rec["program"], rec["meta"], out, rec)
     W: World = out["W"]
